@@ -231,6 +231,10 @@ def normalized_hypergraph_laplacian(H, weighted=False, sparse=True, index=False)
 
     Dv = degree_matrix(H)
     De = np.sum(incidence, axis=0)
+    # an edge without members is in no term of the sum over edges: its entry of
+    # De^-1 is 0 (1 / 0 = inf is skipped by the sparse product but turns the
+    # whole dense product into NaN)
+    De_inv_diag = np.divide(1.0, De, out=np.zeros(len(De)), where=De != 0)
 
     if weighted:
         weights = [H.edges[edge_idx].get("weight", 1) for edge_idx in H.edges]
@@ -239,12 +243,12 @@ def normalized_hypergraph_laplacian(H, weighted=False, sparse=True, index=False)
 
     if sparse:
         Dv_invsqrt = diags_array(np.power(Dv, -0.5), format="csr")
-        De_inv = diags_array(1 / De, format="csr")
+        De_inv = diags_array(De_inv_diag, format="csr")
         W = diags_array(weights, format="csr")
         eye = eye_array(H.num_nodes, format="csr")
     else:
         Dv_invsqrt = np.diag(np.power(Dv, -0.5))
-        De_inv = np.diag(1 / De)
+        De_inv = np.diag(De_inv_diag)
         W = np.diag(weights)
         eye = np.eye(H.num_nodes)
 
